@@ -51,6 +51,7 @@ static void critical(int idx, int m, int y, int w) {
 static void mutex_setup(void) {
   long n = cfg_get("nmutex", 1);
   for (int i = 0; i < n && i < NM; i++) {
+    RT_DIRTY(mtx[i]);
     fiber_mutex_init(&mtx[i]);
     holder[i] = -1;
     vs_watch(&mtx[i], sizeof mtx[i]);
